@@ -118,10 +118,15 @@ type Exec struct {
 	unfold   int
 	initMode bool
 	initHavoc map[*ssa.Global]bool
+	initState *State
+	initAllocT map[int]types.Type
+	initDone map[int]bool
 	nextInit int
 	unfolded map[string]bool
 	splits   []*Term
 	caseMask int
+	caseIdx  []int
+	splitArity []int
 	nSplits  int
 	caseTag  string
 	calls    []*callRec
@@ -166,7 +171,7 @@ func (x *Exec) tagOn(tags []string) bool {
 		return true
 	}
 	for _, t := range tags {
-		if x.Active[t] {
+		if x.Active[t] || t == "*" {
 			return true
 		}
 	}
@@ -190,7 +195,7 @@ func (x *Exec) oblige(kind, site string, tags []string, pos token.Pos, st *State
 	x.counters[base]++
 	name := fmt.Sprintf("%s/%s#%d", x.TopKey, base, x.counters[base])
 	if x.nSplits > 0 {
-		name += x.caseTag
+		name += "[case " + x.caseTag + "]"
 	} else if x.caseMask != 0 {
 		return // obligations before the first split are taken from case 0 only
 	}
@@ -929,7 +934,11 @@ func (x *Exec) value(fr *Frame, st *State, v ssa.Value) Val {
 	case *ssa.Function:
 		return Val{C: []*Term{BV(0, 64)}, Fn: &Closure{Fn: c}}
 	case *ssa.Global:
-		return Val{C: []*Term{BV(int64(x.globalBlk(c)), 32), BV(0, 64)}}
+		id := x.globalBlk(c)
+		if !x.initMode && !x.initHavoc[c] {
+			x.assumeInitBlock(id, c.Type().Underlying().(*types.Pointer).Elem())
+		}
+		return Val{C: []*Term{BV(int64(id), 32), BV(0, 64)}}
 	case *ssa.Builtin:
 		return Val{C: []*Term{BV(0, 64)}}
 	case *ssa.Parameter:
